@@ -200,7 +200,7 @@ func init() {
 			"family 2: the driver built with -race and the real bytebufferpool, G goroutines x N iterations each over own instances with Gosched/sleep injected at sink writes, outputs compared with sequential references, race reports counted from GORACE logs; " +
 			"family 3: the same against a shadow allocator replacing bytebufferpool (poison on Put, quarantine, poison verified on Get, stale capacity visible); " +
 			"distinct = (history, polluter) and interleaving signatures (goroutine switch sequence between sink writes); non-trivial = every repeated history; interleavings with >= 1 switch",
-		Require: []string{"family1_runs", "race_detector_processes", "shadow_allocator_processes", "shadow_cross_goroutine_handovers", "goroutine_switches_between_sink_writes", "repeated_histories", "shadow_reuses", "histories_compared_across_processes"},
+		Require: []string{"family1_runs", "race_detector_processes", "shadow_allocator_processes", "shadow_cross_goroutine_handovers", "goroutine_switches_between_sink_writes", "repeated_histories", "shadow_reuses", "histories_compared_across_processes", "polluters_with_failed_operations", "fault_then_verify_rounds"},
 		RequireFn: func(r *Run) []string {
 			if r.M.Maxes["max_instances_in_flight"] < 2 {
 				return []string{"no two instances were ever in flight at the same time"}
@@ -245,8 +245,8 @@ func init() {
 		Custom: customC05,
 	})
 	addSpec(&Spec{ID: "C14", Title: "excluded fields are inert and embedding equals inlining", Level: "translation_validation",
-		Rule: "programs = base shapes from the C05 universe that have no C05 finding (quick 150 with <= 4 nodes, thorough 500 with <= 5 nodes) and their decorated variants: an excluded field (rotating over 18 forms: lower-case, blank, underscore, multi-name declarations (all unexported; an unexported name added to the declaration of an exported field), " +
-			"non-ASCII lower-case, unexported map/pointer-to-struct, parquet:\"-\" on string/map/chan/func/time.Time/slice/interface, other tag keys before/after) inserted at a position of a struct at any nesting level, one variant with a field at every position, " +
+		Rule: "programs = base shapes from the C05 universe that have no C05 finding (quick 150 with <= 4 nodes, thorough 500 with <= 5 nodes) and their decorated variants: an excluded field (rotating over 20 forms: lower-case, blank, underscore, multi-name declarations (all unexported; an unexported name added to the declaration of an exported field), " +
+			"non-ASCII lower-case, unexported map/pointer-to-struct, parquet:\"-\" on string/map/chan/func/time.Time/slice/interface, other tag keys before/after incl. values with escaped quotes, spaces and colons) inserted at a position of a struct at any nesting level, one variant with a field at every position, " +
 			"and variants in which a contiguous run of sibling fields is moved into an embedded struct (quick: 2+1+2 variants per base; thorough: every position and every run); " +
 			"oracle = files byte-identical to the base's for the same records (3 configurations), excluded fields (filled with junk before Add) zero after reading into a fresh struct, values read back; distinct = (base, decoration); non-trivial = decoration below the root or at every position",
 		EvalCounter:  "cases",
@@ -270,7 +270,7 @@ func init() {
 		Custom: customC14,
 	})
 	addSpec(&Spec{ID: "C15", Title: "a struct regenerated from a file reads that file back faithfully", Level: "translation_validation",
-		Rule: "programs = every non-repeated struct shape (leaf types cycling over int32, int64, float32, float64, bool, string; uniquely named groups; half of them with lower-case column tags) with <= 4 nodes plus a fixed spread of 80 five-node shapes (quick) or <= 5 nodes plus 700 six-node shapes (thorough), " +
+		Rule: "programs = every non-repeated struct shape (leaf types cycling over int32, int64, float32, float64, bool, string; uniquely named groups; half of them with column tags that differ from the Go field names: lower-case ASCII, a lower-case non-ASCII first letter, snake case) with <= 4 nodes plus a fixed spread of 80 five-node shapes (quick) or <= 5 nodes plus 700 six-node shapes (thorough), " +
 			"minus structures listed as C05 findings; three stages: the generated writer writes 3 files per shape (structural enumeration, extremes, random multi-row-group), parquetgen -parquet regenerates struct + reader from the first file, " +
 			"the regenerated reader reads all three files; oracle = regenerated struct has the same column paths, nesting, optionality and physical types (by reflection under the README mapping) and returns exactly the written values; distinct = shape signature; non-trivial = shape has a group",
 		EvalCounter:  "cases",
